@@ -170,3 +170,55 @@ limit12!(limit_mnemonic, b"", true);
 limit12!(limit_character, b"", false);
 limit12!(limit_suffix, b"1 ", false);
 limit12!(limit_common, b"*", true);
+
+
+/// Non-decimal literals at the 64-bit boundary with the REAL lexical_core (no stub): the exact
+/// value up to 2^64-1, a range error above — concrete inputs (the stubbed step contract assumes
+/// that the dependency detects overflow; this obligation checks the assumption at the boundary).
+fn nondec(text: &[u8]) -> Option<Result<u64, i16>> {
+    let mut t = with_state(text, false, false);
+    match t.next() {
+        Some(Ok(Token::NonDecimalNumericProgramData(v))) => Some(Ok(v)),
+        Some(Err(e)) => Some(Err(e.get_code())),
+        _ => None,
+    }
+}
+#[kani::proof]
+#[kani::unwind(70)]
+pub fn nondecimal_boundary_real_lexical() {
+    assert!(nondec(b"#HFFFFFFFFFFFFFFFF") == Some(Ok(u64::MAX)), "C04/Tokenizer::next/#H-literal-of-64-bits-carries-its-exact-value");
+    assert!(nondec(b"#H10000000000000000") == Some(Err(-222)), "C04/Tokenizer::next/#H-literal-above-64-bits-is-a-range-error");
+    assert!(nondec(b"#Q1777777777777777777777") == Some(Ok(u64::MAX)), "C04/Tokenizer::next/#Q-literal-of-64-bits-carries-its-exact-value");
+    assert!(nondec(b"#Q2000000000000000000000") == Some(Err(-222)), "C04/Tokenizer::next/#Q-literal-above-64-bits-is-a-range-error");
+    assert!(nondec(b"#Q3777777777777777777777") == Some(Err(-222)), "C04/Tokenizer::next/#Q-literal-above-64-bits-is-a-range-error-(22-digits-leading-3)");
+    assert!(nondec(b"#Q0001777777777777777777777") == Some(Ok(u64::MAX)), "C04/Tokenizer::next/#Q-literal-with-leading-zeros-carries-its-exact-value");
+    assert!(nondec(b"#B1111111111111111111111111111111111111111111111111111111111111111") == Some(Ok(u64::MAX)), "C04/Tokenizer::next/#B-literal-of-64-bits-carries-its-exact-value");
+    assert!(nondec(b"#B11111111111111111111111111111111111111111111111111111111111111111") == Some(Err(-222)), "C04/Tokenizer::next/#B-literal-above-64-bits-is-a-range-error");
+    assert!(nondec(b"#hff") == Some(Ok(255)) && nondec(b"#q17") == Some(Ok(15)) && nondec(b"#b101") == Some(Ok(5)), "C04/Tokenizer::next/non-decimal-literals-carry-their-exact-value");
+}
+
+/// Very long elements (300 characters, concrete): every reader rejects them with its own error
+/// and no counter overflows — the length counters are `u8`.
+fn first_err(text: &[u8], ih: bool) -> i16 {
+    let mut t = with_state(text, ih, false);
+    match t.next() {
+        Some(Err(e)) => e.get_code(),
+        Some(Ok(_)) => 0,
+        None => 1,
+    }
+}
+#[kani::proof]
+#[kani::unwind(320)]
+pub fn very_long_elements() {
+    let mut a = [b'V'; 300];
+    assert!(first_err(&a, true) == -112, "C04/Tokenizer::next/300-character-mnemonic-is-112");
+    assert!(first_err(&a, false) == -144, "C04/Tokenizer::next/300-character-character-datum-is-144");
+    a[0] = b'1';
+    a[1] = b' ';
+    assert!(first_err(&a, false) == -134, "C04/Tokenizer::next/300-character-suffix-is-134");
+    a[0] = b'*';
+    a[1] = b'V';
+    assert!(first_err(&a, true) == -112, "C04/Tokenizer::next/300-character-common-mnemonic-is-112");
+    let d = [b'7'; 300];
+    assert!(first_err(&d, false) == 0, "C04/Tokenizer::next/300-digit-number-is-one-decimal-element");
+}
